@@ -18,7 +18,8 @@ func init() {
 		Title: "Replicas converge: same committed log gives the same database on every node",
 		Explanation: "C01.a DOM: in package http every call that hands client statements to replication (proxy.Execute, proxy.Request, stmtQueue.Write) is reachable only after sql.Process ran on the same statement slice (SSA identity of the slice stored in the request), the only admitted bypass being the NoParse() edge; runQueue is a reasoned exception (its statements were processed before entering the queue, C23.c). The set of write endpoints is computed from the callers of the three sinks. " +
 			"C01.b WHO: the database-mutating API of db.SwappableDB is called only from the single apply path CommandProcessor.Process, fsmRestore, ReadFrom and Vacuum; fsmApply (live apply and restart replay) and RecoverNode (manual recovery) both reach CommandProcessor.Process rather than a private copy. " +
-			"C01.c WHO/effect: among module functions statically reachable from CommandProcessor.Process, calls of ambient sources (time.Now, math/rand, crypto/rand, os.Getpid, os.Hostname) are limited to a frozen list of timing/statistics sites.",
+			"C01.c WHO/effect: among module functions statically reachable from CommandProcessor.Process, calls of ambient sources (time.Now, math/rand, crypto/rand, os.Getpid, os.Hostname) are limited to a frozen list of timing/statistics sites. " +
+			"C01.d TABLE: QueryParams.DBTimeout — the statement timeout that is written into replicated requests and enforced by every node on its own clock — reads the db_timeout parameter only and calls no other parameter getter.",
 		NotCovered: []string{"SQLite's own determinism (including multi-statement texts and user-defined functions)", "completeness of the rewriter (C14)", "equality of snapshot contents (C04)"},
 		Run:        runC01,
 	})
@@ -40,8 +41,53 @@ var ambientAllowed = map[string]string{
 	"store.createTemp":             "scratch file name for the load command",
 }
 
+// c01dbTimeout: the statement timeout written into a replicated request is
+// enforced by every node on its own clock at every apply and replay, so it may
+// only be what the client set explicitly for that purpose: QueryParams.DBTimeout
+// reads the db_timeout parameter and nothing else (not the overall request
+// timeout, which describes how long this client waits, not how long a statement
+// may run on every replica).
+func c01dbTimeout(c *core.Ctx) {
+	fn := c.Fn("C01.d", "http", "QueryParams.DBTimeout")
+	if fn == nil {
+		return
+	}
+	keys := map[string]bool{}
+	others := map[string]bool{}
+	for _, f := range an.WithClosures(fn) {
+		an.Instrs(f, func(in ssa.Instruction) {
+			switch x := in.(type) {
+			case *ssa.Lookup:
+				if s, ok := an.ConstString(x.Index); ok {
+					keys[s] = true
+				} else {
+					keys["<non-constant>"] = true
+				}
+			case ssa.CallInstruction:
+				if id := an.CalleeID(x); strings.HasPrefix(id, "http.QueryParams.") {
+					others[strings.TrimPrefix(id, "http.QueryParams.")] = true
+				}
+			}
+		})
+	}
+	var ks, os []string
+	for k := range keys {
+		ks = append(ks, k)
+	}
+	for o := range others {
+		os = append(os, o)
+	}
+	sort.Strings(ks)
+	sort.Strings(os)
+	c.Sites++
+	c.Result(strings.Join(ks, ",") == "db_timeout" && len(os) == 0, "C01.d", "TABLE", "QueryParams.DBTimeout:reads-only-db_timeout", c.P.Pos(fn.Pos()),
+		"the statement timeout recorded in replicated requests comes from the db_timeout parameter only",
+		fmt.Sprintf("QueryParams.DBTimeout reads parameters {%s} and calls {%s}: a value other than the explicit db_timeout (e.g. the client's overall timeout) is written into the replicated request and enforced by every node on its own clock — a node that is slower at apply or replay time drops the write and diverges", strings.Join(ks, ","), strings.Join(os, ",")), nil)
+}
+
 func runC01(c *core.Ctx) {
 	c01rewrite(c)
+	c01dbTimeout(c)
 	checkSwappableCallers(c, "C01.b")
 	c01applyPath(c)
 	c01ambient(c)
